@@ -332,6 +332,10 @@ def exec_step(step, sess, chains, audit):
                     value = len
                 if arbitrary is not None and value == '__class__':
                     value = dict
+                if arbitrary is not None and value == '__identity__':
+                    value = rt.IdentityValue()       # an object that is only equal to itself (e.g. a fitted model without __eq__)
+                if arbitrary is not None and value == '__lock__':
+                    value = rt.LockHolder()          # an object that cannot be copied
                 if inp['form'] == 'class':
                     mk = type(it) if step.get('mock_by_class', True) else type(it).slugname
                     mock_classes.append(type(it).__name__)
